@@ -136,6 +136,21 @@ def run(chk):
         if r.random() < 0.2:
             kw["max_itmd_dim"] = r.choice([3, 4])
         tsyms = get_symbols(order)
+        tspin = None
+        if tsyms and r.random() < 0.25:
+            # spin-labelled variant: every index gets a spin, the targets'
+            # spins are passed as target_spin
+            from adcgen.indices import Index
+            smap = {s_: get_symbols(s_.name, r.choice("ab"))[0]
+                    for s_ in sorted(total.atoms(Index), key=str)}
+            total = total.subs(smap, simultaneous=True)
+            tsyms = [smap.get(s_, s_) for s_ in tsyms]
+            if any(not s_.spin for s_ in tsyms):
+                continue
+            tspin = "".join(s_.spin for s_ in tsyms)
+            kw["target_spin"] = tspin[:len(order) // 2] + "," + \
+                tspin[len(order) // 2:] if sep else tspin
+            chk.count("spin_labelled_cases")
         expr = Expr(total, target_idx=tsyms) if tsyms else Expr(total)
         pre_copy = Expr(expr.sympy, **expr.assumptions)
         what = f"generate_code({total}, {kw})"
@@ -162,7 +177,8 @@ def run(chk):
         adapter.fill_order(pre, tgt)
         from adcgen.sort_expr import exploit_perm_sym
         subs, exc2 = guarded(exploit_perm_sym, Expr(total, target_idx=tsyms)
-                             if tsyms else Expr(total), tstr, None, bk, anti)
+                             if tsyms else Expr(total), tstr,
+                             kw.get("target_spin"), bk, anti)
         pool = [pre_copy] + (list(subs.values()) if subs else [])
         names, symbols, clash = name_table(pool, ctx, backend)
         if clash:
@@ -175,6 +191,7 @@ def run(chk):
                 s = get_symbols(n)[0]
                 self[n] = ctx.index(s)
                 return self[n]
+        spin = build.has_spin(ctx)
         idxmap = IdxMap()
         ambiguous = False
         for k, ix in enumerate(ctx.idx, 1):
@@ -194,13 +211,15 @@ def run(chk):
             continue
         bkn = events.collect_bk(ctx, [(pre, True)])
         szs = build.pick_sizes([pre], ctx.idx, tgt, build.BUDGET[build.TIER],
-                               max_models=1)
-        models = [events.model(ctx, noa=szs[0][0], nva=szs[0][1], seed=sd,
+                               spin=spin, max_models=1)
+        models = [events.model(ctx, noa=szs[0][0], nva=szs[0][1],
+                               nob=szs[0][0] if spin else 0,
+                               nvb=szs[0][1] if spin else 0, seed=sd,
                                bkn=bkn) for sd in (1, 2)]
         ev = {"op": "generate_code", "key": key, "what": what[:600],
               "idx": ctx.idx, "tgt": sorted(tgt), "names": ctx.name_list(),
               "models": models, "pre": pre, "post": [],
-              "tabhint": build.table_hint([pre], ctx, tgt, szs[0], False),
+              "tabhint": build.table_hint([pre], ctx, tgt, szs[0], spin),
               "a": {"prog": prog, "target": tgt, "backend": backend},
               "text": {"pre": str(total)[:500], "post": code[:1500]}}
         chk.add_event(ev)
